@@ -8,6 +8,8 @@ mod c06;
 mod c08;
 mod c10;
 mod c12;
+mod c16;
+mod c19;
 mod cov;
 mod fees;
 mod gen;
